@@ -34,6 +34,7 @@ mod imp {
     static DROPS: AtomicU64 = AtomicU64::new(0);
     static DOUBLE_DROPS: AtomicU64 = AtomicU64::new(0);
 
+    #[derive(Debug)]
     pub struct Payload {
         id: u64,
         words: [u64; 8],
@@ -82,6 +83,8 @@ mod imp {
         Set,
         Get,
         IsSet,
+        /// `format!("{:?}", holder)`: a read-only public way of looking at the holder
+        Dbg,
     }
 
     #[derive(Clone, Debug, PartialEq)]
@@ -89,6 +92,7 @@ mod imp {
         SetDone,
         Got(Option<(usize, u64, bool)>), // (Arc pointer, payload id, intact)
         IsSet(bool),
+        Debugged,
         Panicked(String),
     }
 
@@ -177,7 +181,7 @@ mod imp {
     pub type Config = Vec<Vec<OpKind>>;
 
     fn config_name(c: &Config) -> String {
-        c.iter().map(|ops| ops.iter().map(|o| match o { OpKind::Set => "set", OpKind::Get => "get", OpKind::IsSet => "is_set" }).collect::<Vec<_>>().join(";")).collect::<Vec<_>>().join(" | ")
+        c.iter().map(|ops| ops.iter().map(|o| match o { OpKind::Set => "set", OpKind::Get => "get", OpKind::IsSet => "is_set", OpKind::Dbg => "dbg" }).collect::<Vec<_>>().join(";")).collect::<Vec<_>>().join(" | ")
     }
 
     pub struct RunOut {
@@ -235,6 +239,10 @@ mod imp {
                         }
                         OpKind::Get => OpResult::Got(holder.get().map(|a| (Arc::as_ptr(&a) as usize, a.id, a.intact()))),
                         OpKind::IsSet => OpResult::IsSet(holder.is_set()),
+                        OpKind::Dbg => {
+                            std::hint::black_box(format!("{:?}", holder));
+                            OpResult::Debugged
+                        }
                     });
                     let res = res.unwrap_or_else(OpResult::Panicked);
                     sched.record(TEvent::OpEnd { t: i, op: *op, res });
@@ -596,6 +604,12 @@ mod imp {
         // two racing setters and a reader reading twice
         out.push(vec![vec![Set], vec![Set], vec![Get, Get]]);
         out.push(vec![vec![Set], vec![Set], vec![IsSet, Get]]);
+        // `{:?}` of the holder next to a set (alone, before / after a read, next to two setters)
+        out.push(vec![vec![Set], vec![Dbg]]);
+        out.push(vec![vec![Set], vec![Dbg, Get]]);
+        out.push(vec![vec![Set], vec![Get, Dbg]]);
+        out.push(vec![vec![Set], vec![Set], vec![Dbg]]);
+        out.push(vec![vec![Set, Dbg], vec![Dbg]]);
         if level == "full" {
             // 3 threads, one of them with two operations
             for a in &seqs {
@@ -671,6 +685,7 @@ mod imp {
                     "set" => OpKind::Set,
                     "get" => OpKind::Get,
                     "is_set" => OpKind::IsSet,
+                    "dbg" => OpKind::Dbg,
                     _ => return None,
                 });
             }
@@ -704,10 +719,11 @@ mod imp {
                 let k = 1 + rng.usize_below(max_ops);
                 let mut ops = Vec::new();
                 for _ in 0..k {
-                    ops.push(match rng.below(20) {
+                    ops.push(match rng.below(22) {
                         0..=6 => OpKind::Set,
                         7..=14 => OpKind::Get,
-                        _ => OpKind::IsSet,
+                        15..=19 => OpKind::IsSet,
+                        _ => OpKind::Dbg,
                     });
                 }
                 cfg.push(ops);
